@@ -6,7 +6,8 @@
   verif.py replay <ID> <replay.json>
   verif.py list <ID>
 
-Environment: VERIF_SEED (int, default 1), VERIF_TIER, VERIF_REPO (default /repo), VERIF_JOBS (default 16).
+Environment: VERIF_SEED (int, default 1), VERIF_TIER, VERIF_REPO (default /repo), VERIF_JOBS (default 16),
+VERIF_BUILD / VERIF_EVIDENCE (scratch build and evidence directories, used by seed trials only).
 Exit: 0 held / only listed findings; 1 + "VIOLATION property=<id> replay=<path>"; 2 harness error (no verdict).
 """
 import concurrent.futures as cf
@@ -22,7 +23,8 @@ import time
 
 ROOT = os.path.dirname(os.path.abspath(__file__))
 REPO = os.environ.get('VERIF_REPO', '/repo')
-BUILD = os.path.join(ROOT, 'build')
+BUILD = os.environ.get('VERIF_BUILD') or os.path.join(ROOT, 'build')
+EVID = os.environ.get('VERIF_EVIDENCE') or os.path.join(ROOT, 'evidence')  # seed trials (tools/try_seed.sh) write elsewhere
 HARNESS = os.path.join(ROOT, 'harness')
 JOBS = int(os.environ.get('VERIF_JOBS', '16'))
 GUARD = 'JOHNMCFARLANE_CNL_VERIF'
@@ -351,7 +353,7 @@ def run_fuzz(u, ctx, runs, workers=4, only=None, max_len=514):
             res['failures'].append(dict(site=j['site'], **{'class': j['class']}, msg=j['msg'], desc=j['desc'], words=j['words']))
         if crashes and not fails:
             # a sanitizer report (memory error): the saved input is the reproducible unit
-            art = os.path.join(ROOT, 'evidence', 'replay', '%s-fuzz-%s' % (prop, crashes[0]))
+            art = os.path.join(EVID, 'replay', '%s-fuzz-%s' % (prop, crashes[0]))
             os.makedirs(os.path.dirname(art), exist_ok=True)
             shutil.copy(os.path.join(wd, crashes[0]), art)
             tail = [l for l in r.stdout.splitlines() if 'ERROR' in l or 'SUMMARY' in l][:3]
@@ -514,7 +516,7 @@ def check(prop, tier, seed):
         ev.setdefault('engines', []).append({k: v for k, v in er.items() if k in ('name', 'cfg', 'evaluations', 'distinct_nontrivial', 'note', 'exhaustive')})
 
     # 4. unlisted failures -> replay files, confirmed 3x
-    os.makedirs(os.path.join(ROOT, 'evidence', 'replay'), exist_ok=True)
+    os.makedirs(os.path.join(EVID, 'replay'), exist_ok=True)
     seen_sig = set()
     for j, site, f in fail_rows:
         sig = (site, f['class'])
@@ -526,7 +528,7 @@ def check(prop, tier, seed):
             if k in f:
                 rep[k] = f[k]
         h = sha(json.dumps(rep, sort_keys=True))[:12]
-        path = os.path.join(ROOT, 'evidence', 'replay', '%s-%s.json' % (prop, h))
+        path = os.path.join(EVID, 'replay', '%s-%s.json' % (prop, h))
         with open(path, 'w') as fh:
             json.dump(rep, fh, indent=1)
         confirmed = 0
@@ -552,7 +554,7 @@ def check(prop, tier, seed):
                 continue
             rep = dict(property=prop, site=r, cfg=u.cfg, unit=u.name, **{'class': 'instantiation-does-not-compile'},
                        msg=u.skip_errors.get(r, ''), desc='registration ' + r, seed=seed, tier=tier, registration=r, header=u.header)
-            path = os.path.join(ROOT, 'evidence', 'replay', '%s-%s.json' % (prop, sha(json.dumps(rep, sort_keys=True))[:12]))
+            path = os.path.join(EVID, 'replay', '%s-%s.json' % (prop, sha(json.dumps(rep, sort_keys=True))[:12]))
             with open(path, 'w') as fh:
                 json.dump(rep, fh, indent=1)
             violations.append((r, 'instantiation-does-not-compile', path, u.skip_errors.get(r, '')))
@@ -607,8 +609,8 @@ def check(prop, tier, seed):
         ),
         assumptions=plan.get('assumptions', []),
         wall_s=round(wall, 1), violations=len(violations))
-    os.makedirs(os.path.join(ROOT, 'evidence'), exist_ok=True)
-    with open(os.path.join(ROOT, 'evidence', prop + '.json'), 'w') as f:
+    os.makedirs(EVID, exist_ok=True)
+    with open(os.path.join(EVID, prop + '.json'), 'w') as f:
         json.dump(evidence, f, indent=1)
     for l in kf_lines:
         print(l)
